@@ -13,7 +13,7 @@ import time
 
 ROOT = pathlib.Path('/verif')
 SEEDED = ROOT / 'seeded'
-ALSO = {'C03_B': ['C12'], 'C03_D': ['C12']}   # a change kept under one property that is (also) a violation of another
+ALSO = {'C03_B': ['C12'], 'C03_D': ['C12'], 'C03_H': ['C12']}   # a change kept under one property that is (also) a violation of another
 
 
 def sh(cmd, **kw):
